@@ -1402,6 +1402,8 @@ func main() {
 			decisionFunc("channel/auth.go", "Channel.authenticateSSH"), decisionFunc("channel/auth.go", "Channel.authenticateTelnet"))
 		fmt.Fprintf(&sw, "(* driver/netconf/driver.go Driver.storeMessage, Driver.getMessage *)\nDefinition store_message_code : list dstmt :=\n  %s.\nDefinition get_message_code : list dstmt :=\n  %s.\n",
 			decisionFunc("driver/netconf/driver.go", "Driver.storeMessage"), decisionFunc("driver/netconf/driver.go", "Driver.getMessage"))
+		fmt.Fprintf(&sw, "(* driver/netconf/rpc.go Driver.sendRPC (the polling goroutine as one effect) *)\nDefinition send_rpc_code : list dstmt :=\n  %s.\n",
+			decisionFunc("driver/netconf/rpc.go", "Driver.sendRPC", "@opaque-go"))
 		// the loops that apply an option list to an object (C19)
 		var ol []string
 		for _, lf := range [][2]string{{"driver/generic/driver.go", "NewDriver"}, {"driver/network/driver.go", "NewDriver"}, {"driver/netconf/driver.go", "NewDriver"},
